@@ -145,13 +145,14 @@ def reference(pool: dict, job: dict) -> dict:
 def draw_strategy(rng: random.Random, est_events: int, t0_events: int) -> dict:
     k = rng.choice(["random", "random", "random", "repo", "repo", "site", "site", "pct", "skew"])
     gcp = sorted(rng.randrange(1, max(2, est_events)) for _ in range(rng.choice([0, 0, 1, 3])))
+    pal = rng.choice([0.0, 0.0, 0.1, 0.5, 1.0])
     if k == "random":
-        return {"kind": "random", "mean_gap": rng.choice([10, 30, 100, 300, 3000, 30000]), "gc_points": gcp, "max_switches": 5000}
+        return {"kind": "random", "mean_gap": rng.choice([10, 30, 100, 300, 3000, 30000]), "gc_points": gcp, "max_switches": 5000, "p_after_acquire": pal}
     if k == "repo":
-        return {"kind": "repo", "p_line": rng.choice([0.01, 0.05, 0.2, 0.5]), "p_entry": rng.choice([0.0, 0.0005, 0.005]), "gc_points": gcp, "max_switches": 8000}
+        return {"kind": "repo", "p_line": rng.choice([0.01, 0.05, 0.2, 0.5]), "p_entry": rng.choice([0.0, 0.0005, 0.005]), "gc_points": gcp, "max_switches": 8000, "p_after_acquire": pal}
     if k == "site":
         return {"kind": "site", "p": rng.choice([0.001, 0.01, 0.05]), "burst_rate": rng.choice([0.0, 0.0005, 0.002]), "burst_len": rng.choice([4, 8, 16]),
-                "gc_points": gcp, "max_switches": 5000}
+                "gc_points": gcp, "max_switches": 5000, "p_after_acquire": pal}
     if k == "pct":
         return {"kind": "pct", "d": rng.choice([1, 2, 3]), "est_events": est_events, "gc_points": gcp, "max_switches": 5000}
     return {"kind": "skew", "release_at": max(1, int(rng.random() * t0_events)), "then_gap": rng.choice([30, 300, 3000]), "gc_points": gcp, "max_switches": 5000}
